@@ -9,6 +9,7 @@ mod model;
 mod real;
 mod run;
 mod uni;
+mod unsigned;
 
 use enumr::{dup_variants, extensions, plan, rgs_snapshots, with_ops, Pool};
 use mc_common::cli::{self, die};
@@ -557,6 +558,37 @@ fn main() {
 	ev.assume("UtxoLookup answers synchronously; asynchronous lookups (utxo::PendingChecks) are not exercised");
 	ev.assume("rapid-gossip-sync snapshots are wire format version 1 built by the harness; version 2 node details are not exercised; a snapshot re-adds a channel that was reported permanently failed (add_channel_from_partial_announcement does not consult the removal records) - modelled as such, not judged");
 	ev.assume("a channel announcement for a chain-verified outpoint with different node ids replaces the stored channel (documented reorg handling); such conflicting announcements are outside the enumerated pools");
+	// ---- unsigned entry points: ordering rules hold whichever entry point stores / delivers -------------
+	if only.is_none() || only.as_deref() == Some("unsigned") {
+		let depth = if args.tier.is_thorough() { 3 } else { 2 };
+		let (mut ex, mut del, mut refused, mut made) = (0u64, 0u64, 0u64, 0u64);
+		for u in w.us.iter() {
+			match par::guarded(|| unsigned::sweep(u, depth)) {
+				Ok(o) => {
+					ex += o.executions;
+					del += o.deliveries;
+					refused += o.replacements_refused;
+					made += o.replacements_made;
+					let mut seen: BTreeSet<String> = BTreeSet::new();
+					for (oracle, id, detail) in o.problems {
+						let identity = format!("{}|{}", oracle, id);
+						if seen.insert(identity.clone()) && !violations.iter().any(|v| v.identity == identity) {
+							violations.push(Violation { property: PROPERTY.into(), oracle, identity, detail: detail.clone(), replay: json!({"unsigned_sweep": detail}) });
+						}
+					}
+				},
+				Err(p) => violations.push(Violation { property: PROPERTY.into(), oracle: "no-panic".into(), identity: "no-panic|unsigned-sweep".into(), detail: format!("panic in the unsigned-entry-point sweep: {}", p), replay: json!({"unsigned_sweep": "panic"}) }),
+			}
+		}
+		ev.set("unsigned_sweep_depth", depth as u64);
+		ev.set("unsigned_sweep_executions", ex);
+		ev.set("unsigned_sweep_deliveries_judged", del);
+		ev.set("unsigned_sweep_replacements_refused", refused);
+		ev.set("unsigned_sweep_replacements_made", made);
+		if refused == 0 || made == 0 {
+			die("vacuity guard: the unsigned-entry-point sweep never saw a refused and an accepted replacement");
+		}
+	}
 	let code = findings::conclude(PROPERTY, &violations, &mut ev);
 	eprintln!(
 		"C17 {}: {} pools, {} orders, {} executions, {} transitions, {} states, {} final graphs, {} invariance comparisons, {:.1}s{}",
